@@ -261,6 +261,49 @@ theorem NLNR_single_pair {p : Nat} (hp : 0 < p) (s d s' d' : Nat)
   unfold channel
   rw [← hs, ← hd]
 
+theorem route_length_pos (sch : Scheme) (p s d : Nat) : 0 < (route sch p s d).length := by
+  simp [route, routeFuel, routeFrom]
+
+set_option linter.unusedVariables false in
+/-- every forwarding step gets strictly closer to the destination: the number of sends still
+needed (`hopsLeft`) decreases along `nextHop`.  In particular `route` does not depend on its
+fuel.  (The bounds `hx`, `hd` are not needed; they are part of the interface C01 uses.) -/
+theorem route_progress (sch : Scheme) {N p x d : Nat} (hp : 0 < p) (hx : x < N * p) (hd : d < N * p)
+    (hne : x ≠ d) : hopsLeft sch p (nextHop sch p x d) d < hopsLeft sch p x d := by
+  unfold hopsLeft
+  rw [if_neg hne]
+  by_cases hh : nextHop sch p x d = d
+  · rw [if_pos hh]; exact route_length_pos sch p x d
+  · rw [if_neg hh]
+    have hi := loc_lt hp x
+    have hcl := channel_lt hp x d
+    have h1 : node p x ≠ node p d := fun e => hh (nextHop_local sch e)
+    cases sch with
+    | NONE => exact absurd rfl hh
+    | NR =>
+      have hl : loc p x ≠ loc p d := by
+        intro e; apply hh; rw [nextHop_NR_remote h1, e]; exact mk_node_loc p d
+      rw [nextHop_NR_remote h1, route_local_eq _ (node_mk hi), route_NR_eq hp, if_neg h1, if_neg hl]
+      simp
+    | NLNR =>
+      by_cases hc : loc p x = channel p x d
+      · have hl : loc p x ≠ loc p d := by
+          intro e; apply hh; rw [nextHop_NLNR_chan h1 hc, e]; exact mk_node_loc p d
+        rw [nextHop_NLNR_chan h1 hc, route_local_eq _ (node_mk hi), route_NLNR_eq hp, if_neg h1,
+          if_pos hc, if_neg hl]
+        simp
+      · rw [nextHop_NLNR_nochan hp h1 hc]
+        have hm_node : node p (mk p (node p x) (channel p x d)) = node p x := node_mk hcl
+        have hm_loc : loc p (mk p (node p x) (channel p x d)) = channel p x d := loc_mk hcl
+        have hm_chan : channel p (mk p (node p x) (channel p x d)) d = channel p x d := by
+          show (node p d + node p (mk p (node p x) (channel p x d))) % p = channel p x d
+          rw [hm_node]; rfl
+        rw [route_NLNR_eq hp (mk p (node p x) (channel p x d)) d, hm_node, hm_loc, hm_chan,
+          if_neg h1, if_pos rfl, route_NLNR_eq hp x d, if_neg h1, if_neg hc]
+        by_cases hl : channel p x d = loc p d
+        · rw [if_pos hl, if_pos hl]; simp
+        · rw [if_neg hl, if_neg hl]; simp
+
 /-! ### non-vacuity: concrete layouts where every branch is taken (2 nodes × 3 ranks, 3 × 2) -/
 
 example : route .NLNR 3 0 5 = [1, 4, 5] ∧ route .NLNR 3 0 4 = [1, 4] ∧ route .NLNR 3 1 3 = [4, 3]
@@ -271,5 +314,7 @@ example : hopKinds 3 0 (route .NLNR 3 0 5) = [false, true, false]
 example : offHops .NLNR 3 0 5 = [(1, 4)] ∧ offHops .NLNR 3 2 3 = [(1, 4)]
     ∧ offHops .NR 3 1 5 = [(1, 4)] := by decide
 example : offHops .NLNR 2 1 4 = [(0, 4)] ∧ offHops .NLNR 2 5 0 = [(4, 0)] := by decide
+example : hopsLeft .NLNR 3 0 5 = 3 ∧ hopsLeft .NLNR 3 1 5 = 2 ∧ hopsLeft .NLNR 3 4 5 = 1
+    ∧ hopsLeft .NLNR 3 5 5 = 0 := by decide
 
 end YgmVerif.Router
